@@ -10,7 +10,8 @@ MANIFEST = {
                  'RPC / scheduler delivery in between) + exhaustive lifecycle table check + trace monitors on generated '
                  'stop histories',
     'text': 'Single workflow (Mistral.Props.C11 over Mistral.Engine): finished_is_inert, stop_sets_requested_state, '
-            'stop_only_requested. Tree (Mistral.Props.C11Tree over Mistral.Tree, ALL definitions / trees / event '
+            'stop_only_requested. ENGINE COMMANDS (Mistral.Props.C11X over Mistral.Engine.stepX, Model/EngineX.lean: fail / succeed / pause / noop in on-clauses, dispatcher._process_commands / _rearrange_commands incl. the sort, the command BACKLOG, RunExistingTask commands; tied by the core stream whose programs carry engine commands): no_dispatch_into_completed (EVERY world, every event: in a completed workflow no task execution is created and the state does not change, ALSO NOT THROUGH THE BACKLOG - a backlog polled there is dropped), no_dispatch_into_completed_reachable, pause_command_saves_rest (the commands after a `pause` command are saved, nothing of them is created), backlog_untouched_while_paused (never lost), backlog_restored_once (when polled in a RUNNING workflow each saved task command is dispatched exactly once: one execution + one start request each, backlog empty afterwards), restored_join_is_plain (known finding: a join command restored from the backlog has lost wait / unique_key and starts at once as a plain task). '
+            'Tree (Mistral.Props.C11Tree over Mistral.Tree, ALL definitions / trees / event '
             'histories, by an invariant `Good` every transaction satisfies): stop_holds_requested_state (a RUNNING '
             'execution anywhere in the tree takes the requested state and the message in the transaction of the request); '
             'cancel_reached (everything the recursion of stop_workflow(CANCELLED) reaches is CANCELLED with the message in '
@@ -33,7 +34,7 @@ MANIFEST = {
             'from _succeed_workflow / _fail_workflow / _cancel_workflow / set_state / the completion-check transaction, for '
             'ALL interference schedules (an arbitrary committed transaction in every gap between two statements): '
             '*_atomic, fail/cancel_keeps_finished, succeed_keeps_finished (full since repo fix ce9b9520), *_state_output_together, '
-            'cac_succeed_keeps_finished (full since repo fix ce9b9520), cac_one_party_full_fails/_partial (known findings); tie: '
+            'cac_succeed_keeps_finished (full since repo fix ce9b9520), cac_one_party (full since repo patch 25); tie: '
             'race-wf stream (real stop / pause / completion check of a second session committed at every pre-lock SQL '
             'statement of the real completion / stop transaction, compared with Mistral.Race.runWith; monitor on the rows).',
     'note': 'One event = one committed transaction (in-process atomicity) in Mistral.Engine / Mistral.Tree; multi-process '
@@ -46,25 +47,27 @@ MANIFEST = {
             'stream (registered / processed counters compared after every event) and its monitors at quiescence, not by a '
             'theorem; pause / resume propagation in the tree (C10): monitors only.',
 }
-RULE = ('stream lifecycle (exhaustive); stream core (mode stop/mixed); stream engine (mode stop): stop(SUCCESS|ERROR|'
+RULE = ('stream lifecycle (exhaustive); stream core (mode stop/mixed; 60% of the programs with engine commands in on-clauses - pause with '
+        'following targets, fail / succeed / noop first / middle / last -, a directed pause-backlog shape, stop while commands sit in the '
+        'backlog, corpus/core replays; monitors on the real observations: no execution created after a final state / while PAUSED); stream engine (mode stop): stop(SUCCESS|ERROR|'
         'CANCELLED) at a random point of generated runs; stream tree: generated case = nesting depth 2..3 x per level 1..2 '
         'sub-workflow tasks side by side (plain / with-items 1..3 items / concurrency 1..2) with on-success / on-error '
         'continuations (some calling the next level again) and an extra action task x start mode (in-process / '
         'start_subworkflows_via_rpc) x action results x 0..3 operator commands stop(CANCELLED|ERROR|SUCCESS) on the root '
         'or an inner / running execution at random points x schedule policy (random / fifo / lifo) of all pending '
         'deliveries; non-trivial = trace with a stop command; distinct = distinct case descriptions; stream race-wf: '
-        '6 scenarios x 5 interferers x every pre-lock significant SQL statement (exhaustive, 81 cases)')
+        '6 scenarios x 5 interferers x every pre-lock significant SQL statement (exhaustive, 86 cases)')
 TRUSTED = ['harness seams replaced by recorders',
            'translate/race_scripts.py (AST, fail closed); harness/race_driver.py: SQL statement tap, thread-local swap; '
            'row-lock waits modelled, not executed on sqlite',
            'tree stream: executions and task executions are identified by creation rank; state_info / output are compared '
            'by class (none / the operator message / engine-computed)']
-LEAN_MODULES = ['Mistral.Props.C11', 'Mistral.Props.C11Tree', 'Mistral.Props.C03Race', 'Mistral.Props.C03RaceCac']
+LEAN_MODULES = ['Mistral.Props.C11', 'Mistral.Props.C11X', 'Mistral.Props.C11Tree', 'Mistral.Props.C03Race', 'Mistral.Props.C03RaceCac']
 # second/third round: the C11Tree theorems are at full strength and hold for EVERY event history (stops, pause and
 # resume commands with their propagation, lost post-commit operations); see docs/C11.md
 RACE_CHUNKS = [{'family': 'wf', 'scenarios': ['cacSucceed', 'stopCancel']},
                {'family': 'wf', 'scenarios': ['cacFail', 'stopSuccess']},
-               {'family': 'wf', 'scenarios': ['cacCancel', 'stopError']}]
+               {'family': 'wf', 'scenarios': ['cacCancel', 'stopError', 'resume']}]
 
 
 def correspond(ctx):
@@ -97,6 +100,12 @@ def search(ctx):
 
 
 def replay(ctx, rep):
+    if isinstance(rep.get('replay'), dict) and rep['replay'].get('stream') == 'core':
+        from harness import boot
+        boot.boot()
+        from harness import core_stream
+        core_stream.replay(ctx, rep)
+        return
     r = rep.get('replay', rep)
     if isinstance(r, dict) and r.get('kind') == 'race':
         from harness import race_driver
